@@ -209,6 +209,14 @@ def build_cases(run):
                 picks = bs if thorough else rng.sample(bs, 5)
                 for bname, bufs in picks:
                     cases.append(read_case(text, frags, bufs, f"read/{cat.split('/')[0]}/{fname}/{bname}"))
+    # ---- reader: long texts (several KiB: internal buffer sizes, std's 8 KiB default buffers)
+    for nbytes in ((300, 5000, 9000) if not thorough else (300, 5000, 9000, 40000)):
+        text, pre, cat = valid_text(rng, nbytes)
+        n = len(text)
+        frag_sets = [("whole", [n]), ("4096", [4096] * (n // 4096 + 1)), ("8191", [8191] * (n // 8191 + 1)), ("odd-77", [77] * (n // 77 + 1))]
+        for fname, frags in frag_sets:
+            for bname, bufs in (("8192", [8192]), ("4097", [4097]), ("3", [3])):
+                cases.append(read_case(text, frags, bufs, f"read/long/{fname}/{bname}"))
     # ---- reader: malformed stream
     for _ in range(4 if thorough else 2):
         for cat, text in malformed_texts(rng):
